@@ -23,6 +23,42 @@ META = {
         level_note="Trusted: Go runtime goroutine dump format; the counting context models cancellation between two polls of ctx.Done(). Goroutine-level preemption points inside one call are not enumerated. A watchdog hit without a blocking pattern is reported as inconclusive.",
         technique="property-based testing with fault injection (counting context cancellation points, exhaustive at small scope) + deterministic goroutine-profile oracle",
     ),
+    "C01": dict(
+        level_text="Hundreds (quick) to thousands (thorough) of generated multi-node histories per run, each judged operation by operation: every vertex that becomes confirmed is re-evaluated with a big-integer funds test over its declared ancestors plus the checkpoint. Exploration: histories are sampled; concurrent batches sample interleavings.",
+        design_ref="DESIGN.md §4 C01, §3",
+        level_note="Self-transfers are judged as the code does (own amount counted on both sides). Worlds whose checkpoint already overdraws a wallet (only via the C02 merge finding or the trusted exemption) are classified under a known finding. Truncation cases are a minority (every 15th case quick, every 6th thorough).",
+        technique="stateful property-based testing (rapid) against a reference ledger model, invariant over the recorded history",
+    ),
+    "C02": dict(
+        level_text="Generated 2-4 node histories with arbitrary delayed delivery; conservation and no-overdraft evaluated over the union of confirmed vertices at every quiescent point with math/big. Serialized-spender mode excludes the known merge double-spend by construction and must hold strictly.",
+        design_ref="DESIGN.md §4 C02",
+        level_note="The supply-sum clause is an identity on the harness archive (every transfer debits one wallet and credits another), so it is decided through the per-wallet clause and through C06's node-reported balances; stated in DESIGN.md. Trusted sealers excluded as the statement says.",
+        technique="stateful property-based testing (rapid), conservation invariant at quiescent points, known-finding classifier",
+    ),
+    "C03": dict(
+        level_text="Generated histories with replay operators; after every operation the uniqueness of transaction and vertex hashes over live+checkpoint and the exactness of the transaction index are recomputed from the snapshot.",
+        design_ref="DESIGN.md §4 C03",
+        level_note="Concurrent duplicates are sampled (3 parallel deliveries / proposal batches), not enumerated.",
+        technique="stateful property-based testing (rapid) with duplicate/replay operators, snapshot invariants",
+    ),
+    "C06": dict(
+        level_text="Every balance answer in generated histories (multi-tip, truncated, boundary amounts, absent/genesis addresses, three repetitions) must equal the reference value for some current tip; the query must leave the snapshot digest unchanged.",
+        design_ref="DESIGN.md §4 C06",
+        level_note="Uses the node's own stored checkpoint figure (C07 judges that figure). Cross-node agreement follows from judging every node against the same reference.",
+        technique="stateful property-based testing (rapid), differential against math/big reference per tip",
+    ),
+    "C09": dict(
+        level_text="After every operation of generated histories the snapshot is checked for acyclicity (Kahn), edge set == declared live parents, missing parents checkpointed, id == hash == independently recomputed digest and signatures.",
+        design_ref="DESIGN.md §4 C09",
+        level_note="Digest/signature recomputation is the harness's own (harness/ref), written from the message layout.",
+        technique="stateful property-based testing (rapid), structural invariants recomputed from snapshots",
+    ),
+    "C10": dict(
+        level_text="Rule-breaking offers (self-sealed, genesis wallet as issuer, empty transaction) through proposal, gossip and orphan replay at random positions of generated histories; every vertex of every node is scanned after every operation.",
+        design_ref="DESIGN.md §4 C10",
+        level_note="The sync entry point is exercised by the C14 check.",
+        technique="stateful property-based testing (rapid), snapshot scan invariant",
+    ),
 }
 
 def _na():
